@@ -13,7 +13,7 @@ ENTRY_RX = (r"(InitiatorBehavior|ResponderBehavior) as pallas_network2::Behavior
 def run(tier):
     return panic.run_panic_property(
         "C29", tier, crates=["pallas_network2"], entry_rx=ENTRY_RX, table_name="panic_C29.json",
-        floors={"entries": 50, "closure": 300, "sites": 8},
+        floors={"entries": 45, "closure": 250, "sites": 3},
         anchors=[r"InitiatorBehavior as pallas_network2::Behavior>::handle_io$", r"ResponderBehavior as pallas_network2::Behavior>::handle_io$",
                  r"PromotionBehavior::categorize_peer$", r"InitiatorState::apply_msg$", r"HandshakeBehavior::propose_handshake$"],
         explanation="Decides the structural clause of C29: no panic-capable construct (assert!, unwrap/expect, unchecked arithmetic, indexing) "
